@@ -201,6 +201,11 @@ def make_value(kind: str, h: str):
     if kind == 'list':
         return [tag] + [gen_json(r, 1) for _ in range(r.choice([0, 1, 3] if not big else [900]))]
     if kind == 'ndarray':
+        if r.random() < 0.015:
+            # larger than any plausible in-memory/mmap threshold (17.6 MB)
+            a = np.zeros(2_200_000, dtype='<f8')
+            a[:16] = np.frombuffer(bytes.fromhex(h[:32]), dtype=np.uint8)
+            return a
         a = gen_array(r, big)
         if r.random() < 0.5 or a.size == 0:
             # make provenance visible: 1-d uint8 array of digest bytes (another dtype/shape family)
